@@ -258,7 +258,7 @@ class Dumper:
         if g is T.Function.get_sql:
             return self.function(x, al)
         if g is T.Array.get_sql:
-            return "(TArray %s %s %s %s)" % (self.terms(x.values), cstr(vid(x.original_value)), cbool(any(isinstance(v, T.Term) for v in x.original_value)), al)
+            return "(TArray %s %s %s %s)" % (self.terms(x.values), cstr(vid(x.original_value)), cbool(any(isinstance(v, T.Node) for v in x.original_value)), al)
         if g is T.Tuple.get_sql:
             return "(TTuple %s %s)" % (self.terms(x.values), al)
         if g is T.JSON.get_sql:
